@@ -501,9 +501,17 @@ class ValueMon(Monitor):
                 self.booked[t[1]] = self.booked.get(t[1], 0) + t[2]
         self.check(w, False)
 
+    @staticmethod
+    def _configured(w, nm):
+        for d in list(w.spec['devices']) + list(w.spec.get('late', [])):
+            if d['name'] == nm:
+                return d.get('value', 0) if d['kind'] not in ('source', 'sink', 'scheduler') else 0
+        return 0
+
     def check(self, w, first):
         now = w.env.now
         net = 0
+        names = {id(o): n for n, o in w.dev.items()}
         for a in self._assets(w):
             if isinstance(a, Batch):
                 want = true_value(a)
@@ -512,6 +520,12 @@ class ValueMon(Monitor):
                 continue
             h = a._value_history
             run = a._initial_value
+            nm = names.get(id(a))
+            if nm is not None:
+                # the starting value is the one the model was CONFIGURED with, whatever the asset made of it
+                run = self._configured(w, nm)
+                if a._initial_value != run and not h:
+                    raise Violation('value', f'{a.name}: configured starting value {run}, asset starts at {a._initial_value}')
             tprev = 0
             for i, e in enumerate(h):
                 if len(e) != 4:
@@ -1249,7 +1263,14 @@ class BatchMon(Monitor):
             for it in held_items(d):
                 if isinstance(it, Batch):
                     hb = [x.name for x in it.routing_history]
-                    for p in it.parts:
+                    members = []
+                    stack = list(it.parts)
+                    while stack:                     # members at every depth (batches may contain batches)
+                        p = stack.pop()
+                        members.append(p)
+                        if isinstance(p, Batch):
+                            stack.extend(p.parts)
+                    for p in members:
                         hp = [x.name for x in p.routing_history]
                         if hb and hp[-len(hb):] != hb:
                             raise Violation('batch_history', f'batch {it.id} history {hb} not applied to part {p.id}: {hp}')
@@ -1263,6 +1284,31 @@ class BatchMon(Monitor):
                     raise Violation('leaf_count', f'{d.name}.level()={d.level()} but holds {nleaf} parts')
                 if nleaf > d.capacity:
                     raise Violation('leaf_count', f'{d.name} holds {nleaf} parts (every part of a batch counts), capacity {d.capacity}')
+
+
+@monitor('nesthistory')
+class NestHistory(Monitor):
+    '''C08 / C17, history clause for batches at every depth: whatever a travelling batch's history says, the history of
+    every part it contains (directly or inside an inner batch) ends with the same devices.'''
+    prop = 'C17'
+
+    def after(self, w, label, ev):
+        for d in w.flow_devices():
+            items = list(held_items(d)) + (list(d.collected_parts) if isinstance(d, Sink) else [])
+            for it in items:
+                if not isinstance(it, Batch):
+                    continue
+                hb = [x.name for x in it.routing_history]
+                stack = list(it.parts)
+                while stack:
+                    p = stack.pop()
+                    if isinstance(p, Batch):
+                        stack.extend(p.parts)
+                    hp = [x.name for x in p.routing_history]
+                    if hp != hb:
+                        raise Violation('batch_history', f'batch {it.id} went through {hb}; the history of part {p.id} inside it '
+                                                         f'(depth >= 1) says {hp}')
+                    w.facts.append('nested_history_checked')
 
 
 # ============================================================================ C18
